@@ -1,6 +1,6 @@
 (* Lifting kernel-checked finite sweeps (forallb ... = true by vm_compute) to universally
    quantified statements.  The bound is always visible in the lifted statement. *)
-From Coq Require Import NArith List Lia Bool.
+From Coq Require Import ZArith NArith List Lia Bool.
 Import ListNotations.
 Open Scope N_scope.
 
@@ -32,3 +32,52 @@ Proof. intros A h H1 H2. exact (proj1 (forallb_forall _ _) A h (N_range_in lo n 
 Lemma forall_list {A} (f : A -> bool) (l : list A) :
   forallb f l = true -> forall x, In x l -> f x = true.
 Proof. intros H x Hx. exact (proj1 (forallb_forall _ _) H x Hx). Qed.
+
+(* ---- binary-splitting sweeps: no big lists, no big nat ---- *)
+Open Scope Z_scope.
+
+(* f at base, base+step, ..., base+(2^depth-1)*step *)
+Fixpoint allZ (f : Z -> bool) (base step : Z) (depth : nat) : bool :=
+  match depth with
+  | O => f base
+  | S d => allZ f base (2 * step) d && allZ f (base + step) (2 * step) d
+  end.
+
+Lemma allZ_spec f depth : forall base step, allZ f base step depth = true ->
+  forall k, 0 <= k < 2 ^ Z.of_nat depth -> f (base + k * step) = true.
+Proof.
+  induction depth as [|d IH]; intros base step H k Hk.
+  - cbn [allZ] in H. change (2 ^ Z.of_nat 0) with 1 in Hk.
+    replace k with 0 by lia. now rewrite Z.mul_0_l, Z.add_0_r.
+  - cbn [allZ] in H. apply andb_prop in H. destruct H as [H0 H1].
+    rewrite Nat2Z.inj_succ, Z.pow_succ_r in Hk by lia.
+    destruct (Z.even k) eqn:Ev.
+    + apply Z.even_spec in Ev. destruct Ev as [q ->].
+      replace (base + 2 * q * step) with (base + q * (2 * step)) by ring.
+      apply IH; [exact H0 | lia].
+    + assert (Od : Z.odd k = true) by (rewrite <- Z.negb_even, Ev; reflexivity).
+      apply Z.odd_spec in Od. destruct Od as [q ->].
+      replace (base + (2 * q + 1) * step) with (base + step + q * (2 * step)) by ring.
+      apply IH; [exact H1 | lia].
+Qed.
+
+(* every v in [lo, lo + 2^depth) *)
+Lemma allZ_window f lo depth : allZ f lo 1 depth = true ->
+  forall v, lo <= v < lo + 2 ^ Z.of_nat depth -> f v = true.
+Proof.
+  intros H v Hv. replace v with (lo + (v - lo) * 1) by ring.
+  apply (allZ_spec f depth lo 1 H). lia.
+Qed.
+
+(* every n < 2^depth, n : N *)
+Definition allN (f : N -> bool) (depth : nat) : bool := allZ (fun z => f (Z.to_N z)) 0 1 depth.
+
+Lemma allN_spec f depth : allN f depth = true -> forall n, (n < 2 ^ N.of_nat depth)%N -> f n = true.
+Proof.
+  intros H n Hn. unfold allN in H.
+  assert (A := allZ_window _ 0 depth H (Z.of_N n)).
+  cbv beta in A. rewrite N2Z.id in A. apply A.
+  split; [apply N2Z.is_nonneg|].
+  rewrite Z.add_0_l. apply N2Z.inj_lt in Hn. rewrite N2Z.inj_pow in Hn.
+  rewrite nat_N_Z in Hn. exact Hn.
+Qed.
